@@ -60,6 +60,10 @@ var go2coqTargets = []string{
 	// stage 2: state handlers (group 3) — those that need neither (*Nick).Equals nor fallthrough
 	"Conn.h_STNICK", "Conn.h_PART", "Conn.h_KICK", "Conn.h_QUIT", "Conn.h_TOPIC",
 	"Conn.h_324", "Conn.h_332", "Conn.h_671",
+	// stage 3: the state handlers that need Nick.Equals / fallthrough
+	"Conn.h_JOIN", "Conn.h_MODE", "Conn.h_311", "Conn.h_352", "Conn.h_353",
+	// stage 3: package state, the nick mode parser
+	"state:nick.parseModes",
 }
 
 // fuel override per loop ("func#k", k-th condition loop of the function, from 0); the
@@ -605,6 +609,7 @@ type ftrans struct {
 	emitted    map[string]bool
 	resStruct  *types.Named // result type *T
 	section    *bool        // the Tracker section has been opened
+	pkgs       map[string]*pkgInfo
 	inMapRange map[*gvar]bool
 	rangeKey   map[*gvar]types.Object
 	roots      []rootInfo
@@ -626,7 +631,7 @@ var coqReserved = func() map[string]bool {
 		res bytes Ok Panic bind len llen beq slice_to slice_from slice byte_at elem_at elems_from has_prefix has_suffix
 		index last_index contains split2 split_byte fields trim trim_space to_upper to_lower join set_elem
 		replace_pairs length app negb andb orb true false nat N Z bool list unit tt O S fst snd nil cons
-		fuel l p out tagmap tags_set go_map_set Some None option ST trk s_ r_ go_is_some
+		fuel l p out tagmap tags_set go_map_set Some None option ST trk s_ r_ p_ go_is_some
 		kmap km_empty km_set km_get km_filter km_keys km_size isort c_ go_nbytes b64_encode b64_decode`) {
 		m[w] = true
 	}
@@ -1373,6 +1378,23 @@ func (f *ftrans) expr(e ast.Expr) ex {
 	return ex{}
 }
 
+// wrapMWith: the binds, then [last], as one term (tuple patterns through an explicit bind)
+func wrapMWith(pre []nBind, last string) string {
+	if len(pre) == 0 {
+		return last
+	}
+	p := pre[0]
+	rest := wrapMWith(pre[1:], last)
+	if len(p.pat) > 1 {
+		return "bind " + atom(p.mterm) + " (fun p_ => let '" + tuple(p.pat) + " := p_ in " + rest + ")"
+	}
+	n := p.name
+	if len(p.pat) == 1 {
+		n = p.pat[0]
+	}
+	return n + " <- " + p.mterm + " ;; " + rest
+}
+
 // wrapM: the expression as ONE term of type res ty
 func wrapM(a ex) string {
 	var b strings.Builder
@@ -1426,6 +1448,32 @@ func (f *ftrans) binary(x *ast.BinaryExpr) ex {
 		}
 		// the right operand has a partial operation: keep the short-circuit
 		t := f.tmp()
+		// variables re-bound by calls with effects in the right operand: returned with the value
+		var rebound []string
+		seen := map[string]bool{}
+		for _, p := range b.pre {
+			if !p.effect {
+				continue
+			}
+			for _, n := range append(append([]string{}, p.pat...), p.name) {
+				if n != "" && !isTmpName(n) && !seen[n] {
+					seen[n] = true
+					rebound = append(rebound, n)
+				}
+			}
+		}
+		if len(rebound) > 0 {
+			val := tuple(append(append([]string{}, rebound...), arg(b)))
+			skip := "Ok " + tuple(append(append([]string{}, rebound...), strings.TrimPrefix(short, "Ok ")))
+			eval := wrapMWith(b.pre, "Ok "+val)
+			var m string
+			if x.Op == token.LAND {
+				m = "(if " + a.t + " then " + eval + " else " + skip + ")"
+			} else {
+				m = "(if " + a.t + " then " + skip + " else " + eval + ")"
+			}
+			return ex{pre: append(cat(a.pre), nBind{pat: append(append([]string{}, rebound...), t), mterm: m, effect: true}), t: t, ty: tBool}
+		}
 		var m string
 		if x.Op == token.LAND {
 			m = "(if " + a.t + " then " + wrapM(b) + " else " + short + ")"
@@ -1607,6 +1655,10 @@ func (f *ftrans) call(x *ast.CallExpr) ex {
 		if sel := f.info.Selections[fn]; sel != nil && sel.Kind() == types.MethodVal {
 			// a method of the state.Tracker interface
 			if r, ok := f.trackerCall(fn, x); ok {
+				return r
+			}
+			// p.Equals(q) = reflect.DeepEqual on value-modelled pointers
+			if r, ok := f.equalsCall(fn, x); ok {
 				return r
 			}
 			// a method of the sasl.Client oracle
@@ -2375,19 +2427,39 @@ func (f *ftrans) switchStmt(s *ast.SwitchStmt, c ctx, k func() node) node {
 			body []ast.Stmt
 		}
 		var cls []clause
-		for _, cs := range s.Body.List {
-			cc := cs.(*ast.CaseClause)
+		// fallthrough as the last statement of a clause: the clause continues with the body of the
+		// next clause in source order (bodies computed from the last clause backwards)
+		eff := make([][]ast.Stmt, len(s.Body.List))
+		for i := len(s.Body.List) - 1; i >= 0; i-- {
+			b := s.Body.List[i].(*ast.CaseClause).Body
+			if n := len(b); n > 0 {
+				if br, ok := b[n-1].(*ast.BranchStmt); ok && br.Tok == token.FALLTHROUGH {
+					if i+1 >= len(s.Body.List) {
+						failf("fallthrough in the last clause")
+					}
+					b = append(append([]ast.Stmt{}, b[:n-1]...), eff[i+1]...)
+				}
+			}
+			eff[i] = b
+		}
+		for ci, cs := range s.Body.List {
+			cc := &ast.CaseClause{Case: cs.(*ast.CaseClause).Case, List: cs.(*ast.CaseClause).List, Colon: cs.(*ast.CaseClause).Colon, Body: eff[ci]}
 			for _, st := range cc.Body {
 				if b, ok := st.(*ast.BranchStmt); ok && b.Tok != token.CONTINUE {
 					failf("%s in switch", b.Tok)
 				}
 			}
-			ast.Inspect(cc, func(n ast.Node) bool {
-				if b, ok := n.(*ast.BranchStmt); ok && (b.Tok == token.BREAK || b.Tok == token.FALLTHROUGH || b.Tok == token.GOTO) {
-					failf("%s in switch", b.Tok)
-				}
-				return true
-			})
+			for _, st := range cc.Body {
+				ast.Inspect(st, func(n ast.Node) bool {
+					if _, nested := n.(*ast.SwitchStmt); nested {
+						return false // checked when it is translated
+					}
+					if b, ok := n.(*ast.BranchStmt); ok && (b.Tok == token.BREAK || b.Tok == token.FALLTHROUGH || b.Tok == token.GOTO) {
+						failf("%s in switch", b.Tok)
+					}
+					return true
+				})
+			}
 			if cc.List == nil {
 				dflt, hasDflt = cc.Body, true
 				continue
@@ -2524,7 +2596,7 @@ func (f *ftrans) rangeStmt(s *ast.RangeStmt, c ctx, k func() node) node {
 		case *ast.ReturnStmt:
 			failf("return inside a loop")
 		case *ast.BranchStmt:
-			if b.Tok != token.CONTINUE {
+			if b.Tok != token.CONTINUE && b.Tok != token.FALLTHROUGH {
 				failf("%s inside a loop", b.Tok)
 			}
 		}
@@ -2934,15 +3006,25 @@ Definition go_map_set (m : option tagmap) (k v : bytes) : res (option tagmap) :=
 func go2coq(pkgs map[string]*pkgInfo) string {
 	var b strings.Builder
 	b.WriteString(go2coqPrelude)
-	pi := pkgs["client"]
-	sigs := map[string]*gsig{}
+	allSigs := map[string]map[string]*gsig{"client": {}, "state": {}}
 	emitted := map[string]bool{}
 	section := false
 	resetDyn()
 	ifaceMethods = map[string]ifaceMethod{}
-	for _, name := range go2coqTargets {
-		fd := pi.funcs[name]
-		coqName := "go_client_" + coqIdent(name)
+	sectionRestVars = nil
+	for _, target := range go2coqTargets {
+		// "name" is a function of package client, "state:name" one of package state
+		pn, name := "client", target
+		if i := strings.Index(target, ":"); i >= 0 {
+			pn, name = target[:i], target[i+1:]
+		}
+		pi := pkgs[pn]
+		sigs := allSigs[pn]
+		var fd *ast.FuncDecl
+		if pi != nil {
+			fd = pi.funcs[name]
+		}
+		coqName := "go_" + pn + "_" + coqIdent(name)
 		if fd == nil {
 			fmt.Fprintf(&b, "(* %s: not found in the source *)\nDefinition %s_UNSUPPORTED : unit := tt.\n\n", name, coqName)
 			continue
@@ -2964,17 +3046,18 @@ func go2coq(pkgs map[string]*pkgInfo) string {
 			}()
 			f := &ftrans{pi: pi, info: pi.pkg.TypesInfo, sigs: sigs, vars: map[types.Object]*gvar{},
 				hid: map[string]*gvar{}, used: map[string]bool{}, synth: map[*ast.Ident]ex{},
-				structs: map[types.Object]*structVar{}, extra: &extra, emitted: emitted, section: &section, inMapRange: map[*gvar]bool{}, rangeKey: map[*gvar]types.Object{}}
+				structs: map[types.Object]*structVar{}, extra: &extra, emitted: emitted, section: &section, inMapRange: map[*gvar]bool{}, rangeKey: map[*gvar]types.Object{}, pkgs: pkgs}
 			txt := f.function(name, fd)
 			for _, d := range extra {
 				b.WriteString(d + "\n")
 			}
 			pos := pi.pkg.Fset.Position(fd.Pos())
-			fmt.Fprintf(&b, "(* %s — %s *)\n%s\n", name, strings.TrimPrefix(pos.Filename[strings.LastIndex(pos.Filename, "/client/")+1:], "/"), txt)
+			fmt.Fprintf(&b, "(* %s — %s *)\n%s\n", name, strings.TrimPrefix(pos.Filename[strings.LastIndex(pos.Filename, "/"+pn+"/")+1:], "/"), txt)
 		}()
 	}
 	if section {
 		b.WriteString("End WithTracker.\n")
+		b.WriteString(sectionEpilogue())
 	}
 	return b.String()
 }
